@@ -2,6 +2,7 @@
 From Coq Require Import List Bool Arith String.
 Import ListNotations.
 From Lime Require Import Hs.Types Hs.Server Hs.Monitor Hs.ServerFacts Hs.MonitorFacts Props.HsCommon.
+From Lime Require Import Hs.Builder Hs.BuilderFacts.
 Open Scope string_scope.
 Open Scope list_scope.
 
@@ -53,3 +54,36 @@ Example C10_example :
   c10_pre w_conf_tls_only = true /\
   ~ In (AuthCall 1 "plain" (Some 1) "none") (rr_trace (handle_channel s_repaired w_conf_tls_only w_oracle [w_new ""; w_auth])).
 Proof. split; [reflexivity|]. vm_compute. intros H. repeat (destruct H as [H|H]; [discriminate|]). exact H. Qed.
+
+(* ---- the configured policy (server.go: ServerBuilder.EncryptionOptions; Model H) ---- *)
+(* The encryption options of a builder are those of its last EncryptionOptions call (an empty list panics and
+   changes nothing), else the defaults; never empty. *)
+Theorem C10_builder_policy_is_the_last_call : forall ops,
+  b_enc (brun ops) = last_enc ops ["none"; "tls"] /\ b_enc (brun ops) <> [].
+Proof. intros ops. split; [apply enc_is_last_call|]. rewrite enc_is_last_call. apply last_enc_nonempty. discriminate. Qed.
+Print Assumptions C10_builder_policy_is_the_last_call.
+
+(* Builders share nothing: whatever is done with other builders, in whatever interleaving, a builder is what its
+   own calls make of a fresh one. *)
+Theorem C10_builders_are_independent : forall ops j,
+  nth_error (wrun ops) j = option_map brun (own ops j 0).
+Proof. exact wrun_own. Qed.
+Print Assumptions C10_builders_are_independent.
+
+(* A Server built with EncryptionOptions(TLS) as the last such call, on a TLS-capable TCP connection: no
+   Authenticate call, whatever the peer does, happens in clear. *)
+Theorem C10_built_tls_only_server_never_authenticates_in_clear :
+  forall fs ops reg cfg tls_ok ins pre f sch cred enc post,
+  last_enc ops ["none"; "tls"] = ["tls"] ->
+  rr_trace (handle_channel s_repaired (builder_conf (brun ops) (TTcp cfg) tls_ok) (builder_oracle fs (brun ops) reg) ins)
+    = pre ++ AuthCall f sch cred enc :: post ->
+  enc = "tls".
+Proof.
+  intros fs ops reg cfg tls_ok ins pre f sch cred enc post Hl Ht.
+  assert (Hpre : c10_pre (builder_conf (brun ops) (TTcp cfg) tls_ok) = true).
+  { unfold c10_pre, builder_conf. cbn [sc_enc sc_kind]. rewrite enc_is_last_call, Hl. reflexivity. }
+  destruct (C10_credentials_never_in_clear _ _ _ _ _ _ _ _ _ Hpre Ht) as [Hm _].
+  cbn [builder_conf sc_enc] in Hm. rewrite enc_is_last_call, Hl in Hm. unfold mem in Hm. cbn in Hm.
+  rewrite orb_false_r in Hm. apply String.eqb_eq in Hm. exact Hm.
+Qed.
+Print Assumptions C10_built_tls_only_server_never_authenticates_in_clear.
